@@ -56,7 +56,12 @@ class _NoNoise:
 
     def poisson(self, lam, size=None):
         lam = np.asarray(lam, dtype=np.float64)
-        return np.array(np.broadcast_to(lam, size if size is not None else lam.shape))
+        out = np.array(np.broadcast_to(lam, size if size is not None else lam.shape))
+        if out.size and np.all(out == np.rint(out)) and np.all(np.abs(out) < 2.0 ** 62):
+            # numpy's poisson returns int64 counts; when the mean is a whole number of electrons everywhere the noise-free
+            # stand-in is returned in that dtype too, so that the integer arithmetic paths of expose() are exercised
+            return out.astype(np.int64)
+        return out
 
     def normal(self, loc=0.0, scale=1.0, size=None):
         return np.zeros(size if size is not None else ()) + loc
@@ -594,7 +599,7 @@ def check_bin(case, ctx):
 # ---- Bayer -------------------------------------------------------------------------------------------
 CFAS = ['rggb', 'bggr']
 DTYPES = ['float64', 'float64', 'float32', 'uint16', 'int32', 'uint8', 'uint32', 'int64']
-VALUE_LEVELS = ['low', 'low', 'mid', 'top']
+VALUE_LEVELS = ['low', 'low', 'mid', 'top', 'signed']
 
 
 def site_colours(shape, cfa):
@@ -621,6 +626,13 @@ def _marker(shape, dtype, seed, salt, level='low', offset=0):
     n = int(np.prod(shape))
     k = (U.rng_of(seed, salt).permutation(n).reshape(shape) + 1 + offset).astype(np.int64)
     dt = np.dtype(dtype)
+    if level == 'signed':
+        # bias- / dark-subtracted frames: about half of the samples negative (signed integer and float types; unsigned types
+        # cannot hold them and take the 'low' values)
+        if dt.kind in 'fi':
+            v = np.where(k % 2 == 0, -k, k)
+            return (v.astype(np.float64) * 0.75).astype(dt) if dt.kind == 'f' else v.astype(dt)
+        level = 'low'
     if dt.kind == 'f':
         scale = {'low': 1.0, 'mid': 1e-30, 'top': 1e30 if dt == np.float32 else 1e300}[level]
         return (k.astype(np.float64) * scale).astype(dt)
@@ -724,7 +736,7 @@ def check_bayer(case, ctx):
     U.check_equal(other[..., ::-1], rgb, 'demosaic_malvar:layout-swap', 'rggb and bggr results must be each other with R and B exchanged')
     # unit-sum kernels: a flat field stays flat (float data only; integer containers truncate)
     if dt.startswith('float'):
-        fv = 7.25 * {'low': 1.0, 'mid': 1e-30, 'top': 1e30 if dt == 'float32' else 1e300}[level]
+        fv = 7.25 * {'low': 1.0, 'signed': -1.0, 'mid': 1e-30, 'top': 1e30 if dt == 'float32' else 1e300}[level]
         flat = relayout(np.full((m, n), fv, dtype=dt), lay)
         frgb = np.asarray(ctx.call(bayer.demosaic_malvar, flat, cfa))
         U.check_close(frgb, np.full((m, n, 3), float(flat[0, 0])), 1e-12 if dt == 'float64' else 1e-5, 'demosaic_malvar:flat-field', 'flat field must stay flat')
